@@ -16,6 +16,7 @@
    is what `resolve` models. *)
 From Coq Require Import ZArith List Bool.
 Require Import DS.Model.Path DS.Gen.GenPath DS.Proofs.PathProofs DS.Proofs.KernelAgree.
+Require Import DS.Model.Str DS.Gen.GenS3 DS.Proofs.S3KeyProofs.
 Import ListNotations.
 Open Scope Z_scope.
 
@@ -148,6 +149,22 @@ Theorem C17_history_stateless : forall (d : nat) (cwd : loc) (dirs : list comp) 
 Proof. exact run_history_stateless. Qed.
 Print Assumptions C17_history_stateless.
 
+(* The object-store backend.  Its root is a KEY PREFIX and keys are opaque strings: over the key mapping regenerated
+   from S3StorageBackend._get_s3_key / list_files on every run (Gen/GenS3.v), for EVERY path string -- '..', '.',
+   '//', absolute, sibling-prefix names included -- the key of a request is the configured prefix, a '/', and the bytes
+   of the path after its leading slashes VERBATIM (no segment is interpreted), so it lies under the table prefix;
+   likewise the Prefix= of a listing. *)
+Theorem C17_s3_key_under_prefix : forall prefix path : str, nonempty prefix = true ->
+  gen_get_s3_key prefix path = (prefix ++ [slash]) ++ lstrip_slash path
+  /\ starts_with (gen_get_s3_key prefix path) (prefix ++ [slash]) = true.
+Proof. intros prefix path H. split; [exact (s3_key_verbatim prefix path H)|exact (s3_key_under_prefix prefix path H)]. Qed.
+Print Assumptions C17_s3_key_under_prefix.
+
+Theorem C17_s3_list_prefix_under_prefix : forall prefix path : str, nonempty prefix = true ->
+  starts_with (gen_list_prefix prefix path) (prefix ++ [slash]) = true.
+Proof. exact s3_list_prefix_under_prefix. Qed.
+Print Assumptions C17_s3_list_prefix_under_prefix.
+
 (* The fuel bound is satisfiable: one unit per link in the tree is always enough. *)
 Theorem C17_fuel_sufficient : forall (d : nat) (t : tree) (cwd : loc) (base p : pstr),
   (count_links t <= d)%nat ->
@@ -212,3 +229,12 @@ Example C17_nonvacuous :
   /\ run_entry 5 ex_tree ex_cwd gen_table_dirs ex_base EpWrite [3; 2] = Err IsRoot
   /\ In (EpWrite, GFileTarget) gen_entry_guards.
 Proof. vm_compute. repeat split; try reflexivity; auto 20. Qed.
+
+(* non-vacuity of the object-store theorems (string literals need String, imported last: it shadows List.length) *)
+From Coq Require Import String.
+Example C17_s3_nonvacuous :
+  gen_get_s3_key (lit "wh/t"%string) (lit "../t2/data/x"%string) = lit "wh/t/../t2/data/x"%string
+  /\ gen_get_s3_key (lit "wh/t"%string) (lit "//etc/passwd"%string) = lit "wh/t/etc/passwd"%string
+  /\ gen_list_prefix (lit "wh/t"%string) (lit "../t2"%string) = lit "wh/t/../t2/"%string.
+Proof. vm_compute. repeat split. Qed.
+
